@@ -380,6 +380,7 @@ func R5(pkgs ...string) func(p *core.Prog) *core.Result {
 				bad *ival
 			}
 			ors := map[*ssa.BinOp]*orObs{}
+			wraps := map[*ssa.BinOp]bool{}
 			env := &ienv{num: newNumbering(), sizes: sizes}
 			if hi := lenHi[pk.Name()]; hi != nil && f.Signature.Recv() != nil && namedOf(f.Signature.Recv().Type()) != nil && namedOf(f.Signature.Recv().Type()).Obj().Name() != "lengthStack" {
 				env.loadBound = func(ld *ssa.UnOp) (ival, bool) {
@@ -433,6 +434,12 @@ func R5(pkgs ...string) func(p *core.Prog) *core.Result {
 						o.multi = true
 					}
 				case *ssa.BinOp:
+					// digit accumulation on the text->number path: an unsigned add/mul that can wrap needs a wrap check
+					if pk.Name() == "json" && strings.HasPrefix(f.Name(), "parse") && (x.Op == token.ADD || x.Op == token.MUL) {
+						if bits, signed, ok := intTypeInfo(x.Type(), sizes); ok && !signed && bits == 64 && env.mayWrap(s, x) {
+							wraps[x] = true
+						}
+					}
 					// CBOR head: major | arg
 					if pk.Name() != "cborl" || x.Op != token.OR {
 						return
@@ -578,6 +585,40 @@ func R5(pkgs ...string) func(p *core.Prog) *core.Result {
 					kind = "F2 sign reinterpretation at a decode/length sink"
 				}
 				r.Fail(".CONV", key, pos, fmt.Sprintf("%s: %s: %s can be reached with the operand anywhere in %s, outside the target range %s: the number changes its value", fkey, kind, desc, o.union, dst), "")
+			}
+			// wrap checks
+			{
+				var wl []*ssa.BinOp
+				for b := range wraps {
+					wl = append(wl, b)
+				}
+				sort.Slice(wl, func(i, j int) bool { return instrPos(wl[i]) < instrPos(wl[j]) })
+				for i, b := range wl {
+					total++
+					checked := false
+					if refs := b.Referrers(); refs != nil {
+						for _, rf := range *refs {
+							if cmp, ok := rf.(*ssa.BinOp); ok {
+								switch cmp.Op {
+								case token.LSS, token.GTR, token.LEQ, token.GEQ:
+									other := cmp.X
+									if other == ssa.Value(b) {
+										other = cmp.Y
+									}
+									if other == b.X || other == b.Y {
+										checked = true
+									}
+								}
+							}
+						}
+					}
+					pos := p.Pos(token.Pos(instrPos(b)))
+					if checked {
+						r.Ok(".WRAP", pos, fkey+": an addition that can wrap around 2^64 is followed by the result < operand wrap test")
+					} else {
+						r.Fail(".WRAP", fmt.Sprintf("%s|wrap#%d", fkey, i+1), pos, fkey+": the digit accumulation at "+pos+" can exceed 2^64 and wrap around, and the result is never compared with its operand: a literal just above the 64-bit range is reported as a small number", "")
+					}
+				}
 			}
 			// CBOR heads
 			var orl []*ssa.BinOp
